@@ -297,9 +297,10 @@ def execute(case, stats):
         uhi = None if ax["hi"] is None else (math.log10(ax["hi"]) if ax["log"] else ax["hi"])
         # a requested limit that leaves no room for the automatic other side (all data at or beyond it)
         # is a degenerate request: the front-end widens it; not judged
-        degenerate = ((ulo is not None and uhi is None and (len(fin) == 0 or fin.max() <= ulo)) or
-                      (uhi is not None and ulo is None and (len(fin) == 0 or fin.min() >= uhi)) or
-                      (ulo is None and uhi is None and len(fin) and fin.min() == fin.max()))
+        tol_d = 1e-12 * max(1.0, abs(ulo or 0.0), abs(uhi or 0.0))  # np.log10 and math.log10 may differ in the last bit
+        degenerate = ((ulo is not None and uhi is None and (len(fin) == 0 or fin.max() <= ulo + tol_d)) or
+                      (uhi is not None and ulo is None and (len(fin) == 0 or fin.min() >= uhi - tol_d)) or
+                      (ulo is None and uhi is None and len(fin) and fin.max() - fin.min() <= tol_d))
         if not (np.isfinite(lo) and np.isfinite(hi) and hi > lo):
             if degenerate:
                 stats.inc("ambig.degenerate_requested_range")
@@ -317,7 +318,7 @@ def execute(case, stats):
                 if abs(got - want) > 1e-12 * max(1.0, abs(want)):
                     V("grid", "explicit-limit", {"effect": "explicit-limit-not-used"}, {"axis": name, "side": side, "want": want, "got": got})
         fin = t[np.isfinite(t)]
-        if len(fin):
+        if len(fin) and not degenerate:
             if ax["lo"] is None and not fin.min() >= lo:
                 V("grid", "auto-range", {"effect": "auto-range-excludes-data"}, {"axis": name, "lo": lo, "min": float(fin.min())})
             if ax["hi"] is None and not fin.max() < hi:
